@@ -94,6 +94,10 @@ type Scenario struct {
 	PeerFiles  []PeerFile     `json:"peer_files,omitempty"`
 	Peer       []PeerOp       `json:"peer,omitempty"`
 	MaxInFlight int           `json:"max_in_flight,omitempty"`
+	LogOps     []LogOp        `json:"log_ops,omitempty"`
+	LogTasks   int            `json:"log_tasks,omitempty"`
+	QueueOps   []QueueOp      `json:"queue_ops,omitempty"`
+	QueueTags  []TagCfg       `json:"queue_tags,omitempty"`
 }
 
 type gen struct {
